@@ -150,7 +150,10 @@ def shrink(mod, case, pred, budget_s=20):
 
 def real_violation(mod, case):
     r = _safe_real(mod, case)
-    v = mod.oracle(case, r)
+    try:
+        v = mod.oracle(case, r)
+    except Exception as e:      # outputs of a shape the oracle cannot judge: never produced by code the property holds for
+        v = 'oracle-exception: %s' % e
     if v and v != 'precondition-not-met':
         return v
     return None
@@ -357,7 +360,10 @@ def replay(path):
         return 1
     case = payload['case']
     r = _safe_real(mod, case)
-    v = mod.oracle(case, r)
+    try:
+        v = mod.oracle(case, r)
+    except Exception as e:
+        v = 'oracle-exception: %s' % e
     print('case:', json.dumps(case)[:2000])
     print('real:', json.dumps(r, default=str)[:2000])
     if v and v != 'precondition-not-met':
